@@ -46,6 +46,8 @@ pub struct Sim {
     /// the elements that existed at the start or at the end of the last sort_new_items call: everything else is new,
     /// whatever position key it carries (a merged-in element must not smuggle in the key it had in its own file)
     pub known: std::collections::HashSet<Id>,
+    /// output order of the other modules of the project at the start
+    pub others: Vec<Vec<Id>>,
     pub counter: u32,
     pub steps: u64,
 }
@@ -65,6 +67,13 @@ fn observe(g: &Grammar, f: &A2lFile) -> Result<Vec<Id>, String> {
     Ok(v)
 }
 
+/// the children of every module but the first, in output order (those modules are never edited by the histories)
+fn observe_others(g: &Grammar, f: &A2lFile) -> Result<Vec<Vec<Id>>, String> {
+    let text = guard(|| f.write_to_string()).map_err(|p| format!("panic: {p}"))?;
+    let mods = module_order(g, &text).map_err(|e| format!("invalid-output: {e}"))?;
+    Ok(mods.into_iter().skip(1).collect())
+}
+
 impl Sim {
     pub fn start(g: &Grammar, text: &str) -> Result<Sim, String> {
         let file = match load(text, None, false) {
@@ -74,7 +83,8 @@ impl Sim {
         let um = uid_map(&file);
         let placed = observe(g, &file)?.into_iter().filter(|x| um.get(x).copied().unwrap_or(0) != 0).collect();
         let known = um.keys().cloned().collect();
-        Ok(Sim { file, placed, new: vec![], known, counter: 0, steps: 0 })
+        let others = observe_others(g, &file)?;
+        Ok(Sim { file, placed, new: vec![], known, others, counter: 0, steps: 0 })
     }
 
     fn apply(&mut self, g: &Grammar, a: Act) -> Result<(), String> {
@@ -143,6 +153,12 @@ impl Sim {
             return Ok(());
         }
         let out = observe(g, &self.file).map_err(|e| (if e.starts_with("panic") { "panic".to_string() } else { "invalid-output".to_string() }, e))?;
+        if !self.others.is_empty() {
+            let now = observe_others(g, &self.file).map_err(|e| ("invalid-output".to_string(), e))?;
+            if now != self.others {
+                return Err(("other-module-order-changed".into(), format!("after {a:?}: the children of another module of the project are written in another order: {:?}, before {:?}", now, self.others)));
+            }
+        }
         let uid_after = uid_map(&self.file);
         let named = |x: &Id| x.0 != "IF_DATA" && is_list_kind(&x.0) || x.0 == "USER_RIGHTS";
         let was_placed = |x: &Id| self.known.contains(x) && uid_before.get(x).copied().unwrap_or(0) != 0;
@@ -268,7 +284,15 @@ pub fn start_texts(g: &Grammar) -> Vec<(String, String)> {
     let three = file_text(g, "m", &[e("MEASUREMENT", "m1", "c1"), e("CHARACTERISTIC", "c1", "c1"), e("MEASUREMENT", "m2", "c1"), e("COMPU_METHOD", "cm1", "c1"), e("USER_RIGHTS", "u1", "c1"), e("GROUP", "g1", "c1"), e("CHARACTERISTIC", "c2", "c1")]);
     // interleave a comment and an IF_DATA block
     let three = three.replace("\n    /begin COMPU_METHOD", "\n    /* section */\n    /begin IF_DATA ZZ 1 /end IF_DATA\n    /begin COMPU_METHOD");
-    vec![("empty".into(), file_text(g, "m", &[])), ("one".into(), file_text(g, "m", &[e("MEASUREMENT", "m1", "c1")])), ("mixed".into(), three), ("new()".into(), a2lfile::new().write_to_string())]
+    // the "mixed" module followed by a second module with interleaved kinds, IF_DATA and USER_RIGHTS
+    let second = file_text(g, "m2", &[e("CHARACTERISTIC", "c9", "c1"), e("MEASUREMENT", "m9", "c1"), e("USER_RIGHTS", "u9", "c1"), e("CHARACTERISTIC", "c8", "c1"), e("COMPU_METHOD", "cm9", "c1"), e("MEASUREMENT", "m8", "c1")]);
+    let two = {
+        let a = second.find("/begin MODULE").unwrap_or(0);
+        let b = second.rfind("/end MODULE").map(|x| x + "/end MODULE".len()).unwrap_or(second.len());
+        let pos = three.rfind("/end MODULE").map(|x| x + "/end MODULE".len()).unwrap_or(three.len());
+        format!("{}\n  {}{}", &three[..pos], second[a..b].replace("/end MODULE", "/begin IF_DATA YY 2 /end IF_DATA\n  /end MODULE"), &three[pos..])
+    };
+    vec![("empty".into(), file_text(g, "m", &[])), ("one".into(), file_text(g, "m", &[e("MEASUREMENT", "m1", "c1")])), ("mixed".into(), three), ("new()".into(), a2lfile::new().write_to_string()), ("two-modules".into(), two)]
 }
 
 pub fn all_actions() -> Vec<Act> {
@@ -529,7 +553,7 @@ pub fn run(tier: &str) -> Run {
     run.require("all-sequences: stable", 1000);
     run.require("long-history: stable", 1000);
     run.extra.insert("bounds".into(), json!({"all_sequences_depth": depth, "long_history_length": len, "actions": acts.len(), "starts": starts.len()}));
-    run.rule = "state = the real A2lFile; actions = sort_new_items (S), push a builder-made element of 6 kinds (P), merge one of 5 small modules (three with fresh names, two that also hold same-name elements with other content, same-name identical elements and a same-name GROUP) (M); an element counts as new from the moment it appears until the next S, whatever position key it carries. (i) every action sequence of depth d from 4 start files, observed after each step; (ii) histories of S of length L with at most two other actions at every pair of positions; a file with two elements of each of the 20 list kinds and, per kind, histories that push new elements of that kind between calls; (iii) 64 consecutive S on files with 1..1000 elements and on 54 files in which three kinds appear in every order in blocks of 2..40 with IF_DATA / USER_RIGHTS in front; insert/sort cycles (40, thorough 200); 2 and 5 new elements of one kind per cycle for 12 (24) cycles on a file with 30+30 elements. Observation: the order of the module's children in write_to_string (reference interpreter). Oracle: relative order of placed elements never changes; after S each new element sits in the run directly behind the last placed element of its kind (behind all placed elements if there is none); no panic / overflow.".into();
+    run.rule = "state = the real A2lFile; actions = sort_new_items (S), push a builder-made element of 6 kinds (P), merge one of 5 small modules (three with fresh names, two that also hold same-name elements with other content, same-name identical elements and a same-name GROUP) (M); an element counts as new from the moment it appears until the next S, whatever position key it carries. (i) every action sequence of depth d from 5 start files (one with a second module whose children must keep their order throughout), observed after each step; (ii) histories of S of length L with at most two other actions at every pair of positions; a file with two elements of each of the 20 list kinds and, per kind, histories that push new elements of that kind between calls; (iii) 64 consecutive S on files with 1..1000 elements and on 54 files in which three kinds appear in every order in blocks of 2..40 with IF_DATA / USER_RIGHTS in front; insert/sort cycles (40, thorough 200); 2 and 5 new elements of one kind per cycle for 12 (24) cycles on a file with 30+30 elements. Observation: the order of the module's children in write_to_string (reference interpreter). Oracle: relative order of placed elements never changes; after S each new element sits in the run directly behind the last placed element of its kind (behind all placed elements if there is none); no panic / overflow.".into();
     run
 }
 
